@@ -217,8 +217,63 @@ let cmd_validate () =
     done
   with End_of_file -> ()
 
+(* ---------------- flow semantics ----------------
+   line:  <flow> # <scenario>     flow as for validate, tasks with 6 fields:
+   T ins outs pred inv fallback haserr ;  scenario: t3=err q2=false ... *)
+let rec show_term = function
+  | TmParam t -> "p" ^ string_of_int (int_of_nat t)
+  | TmOut (k, i, args) -> Printf.sprintf "t%d.%d(%s)" (int_of_nat k) (int_of_nat i) (String.concat "," (List.map show_term args))
+  | TmZero -> ""
+  | TmFall (k, i) -> Printf.sprintf "fb%d.%d" (int_of_nat k) (int_of_nat i)
+let show_ferr = function
+  | FErr k -> "err:t" ^ string_of_int (int_of_nat k)
+  | FPanic k -> "panic:t" ^ string_of_int (int_of_nat k)
+  | FPredPanic k -> "panic:q" ^ string_of_int (int_of_nat k)
+let parse_gflow line =
+  let parts = List.map String.trim (String.split_on_char '|' line) in
+  let params = ref [] and results = ref [] and tasks = ref [] in
+  List.iter (fun p ->
+    match split_ws p with
+    | "P" :: r -> params := List.map nat r
+    | "R" :: r -> results := List.map nat r
+    | ["T"; i; o; pr; inv; fb; he] ->
+      tasks := { kins = nats_of i; kouts = nats_of o;
+                 kpred = (if pr = "-" then None else Some (nats_of pr));
+                 kinvoke = (inv = "1"); kfallback = (fb = "1"); khaserr = (he = "1") } :: !tasks
+    | [] -> ()
+    | _ -> failwith ("bad flow part: " ^ p)) parts;
+  { gparams = !params; gresults = !results; gtasks = List.rev !tasks }
+let parse_scenario s =
+  let tbl = Hashtbl.create 8 in
+  List.iter (fun kv -> match String.split_on_char '=' kv with
+    | [k; v] -> Hashtbl.replace tbl k v | _ -> ()) (split_ws s);
+  { sc_task = (fun k -> match Hashtbl.find_opt tbl ("t" ^ string_of_int (int_of_nat k)) with
+                | Some "err" -> OERR | Some "panic" -> OPANIC | _ -> OOK);
+    sc_pred = (fun k -> match Hashtbl.find_opt tbl ("q" ^ string_of_int (int_of_nat k)) with
+                | Some "false" -> PFALSE | Some "panic" -> PPANIC | _ -> PTRUE) }
+let cmd_flowobs () =
+  try
+    while true do
+      let line = input_line stdin in
+      let (fl, scs) = match String.index_opt line '#' with
+        | None -> (line, "")
+        | Some i -> (String.sub line 0 i, String.sub line (i + 1) (String.length line - i - 1)) in
+      let f = parse_gflow fl and sc = parse_scenario scs in
+      let fails = List.map show_ferr (failures f sc) in
+      let res = match result_values f sc with
+        | Some vs -> String.concat ";" (List.map show_term vs) | None -> "?" in
+      let cs = List.sort compare (List.map (fun ((isp, k), args) ->
+        Printf.sprintf "%s%d(%s)" (if isp then "q" else "t") (int_of_nat k) (String.concat "," (List.map show_term args)))
+        (calls f sc)) in
+      let bl = List.map (fun k -> "t" ^ string_of_int (int_of_nat k)) (blocked f sc) in
+      Printf.printf "ERR=%s ; RES=%s ; CALLS=%s ; BLOCKED=%s\n"
+        (if fails = [] then "nil" else String.concat "|" fails) res (String.concat ";" cs) (String.concat "," bl)
+    done
+  with End_of_file -> ()
+
 let () =
   match Array.to_list Sys.argv with
+  | _ :: "flowobs" :: _ -> cmd_flowobs ()
   | _ :: "validate" :: _ -> cmd_validate ()
   | _ :: "sched-replay" :: _ -> cmd_sched_replay ()
   | _ :: "invert" :: _ -> cmd_invert ()
